@@ -9,6 +9,12 @@ def dominated_region(body, head, switch_bb=None):
         return {x for x in range(len(body.blocks)) if body.dominates(head, x)}
     ip = body.ipdom().get(switch_bb)
     avoid = [ip] if ip is not None and ip < len(body.blocks) else []
+    avoid.append(switch_bb)
+    # a match inside a loop: arms end where the next iteration begins
+    from .evalguard import _loop_header
+    h = _loop_header(body, switch_bb)
+    if h is not None:
+        avoid.append(h)
     seen = body.reachable([head], avoid=avoid)
     return {x for x in seen if not body.is_cleanup(x)}
 
